@@ -144,6 +144,17 @@ func rulePR1(c *Ctx) *rule {
 			}
 			for _, rs := range rets {
 				objs := valueSelectorsOf(info, rs)
+				// the tested token handed as a whole to a helper that builds the error also carries its Value
+				ast.Inspect(rs, func(y ast.Node) bool {
+					if call, ok := y.(*ast.CallExpr); ok {
+						for _, a := range call.Args {
+							if aid, ok := a.(*ast.Ident); ok && info.Uses[aid] == obj {
+								objs = append(objs, obj)
+							}
+						}
+					}
+					return true
+				})
 				same, other := false, ""
 				for _, o := range objs {
 					if o == obj {
